@@ -175,7 +175,7 @@ func main() {
 			}
 			// euclidean metrics: the line scaled by a power of two (exact) resamples to the bit-for-bit scaled points
 			if df.scale > 0 {
-				for _, k := range []float64{1024, 1.0 / 64} {
+				for _, k := range []float64{1024, 1.0 / (1 << 40)} {
 					sl, _ := refgeom.Scale(ls, k).(orb.LineString)
 					if o2 := resample.Resample(sl, df.f, N); !refgeom.Equal(o2, refgeom.Scale(out, k)) {
 						c.Failf("scaling", "%s of the line scaled by %v gives %v, unscaled %v | %s", call, k, o2, out, desc(call))
@@ -210,7 +210,7 @@ func main() {
 				c.Failf("layout-dependent", "%s gives %v for the line with spare capacity and %v for an exact-capacity copy | %s", call, o2, out, desc(call))
 			}
 			if df.scale > 0 {
-				for _, k := range []float64{1024, 1.0 / 64} {
+				for _, k := range []float64{1024, 1.0 / (1 << 40)} {
 					sl, _ := refgeom.Scale(ls, k).(orb.LineString)
 					if o2 := resample.ToInterval(sl, df.f, dd*k); !refgeom.Equal(o2, refgeom.Scale(out, k)) {
 						c.Failf("scaling", "%s of the line and the interval scaled by %v gives %v, unscaled %v | %s", call, k, o2, out, desc(call))
